@@ -353,13 +353,34 @@ def cap_dict(cap):
 
 # ----------------------------------------------------------------------------------------------------------------
 # spec -> real slivers (every call creates new objects for everything)
+UD_FORM = [0]     # how the *same* user-data value is handed to UserData(): 0 object, 1 indented JSON text, 2 JSON text with
+                  # the keys in reverse order - equal values, different stored text
+
+
+def _ud_form(value):
+    import json as _json
+    f = UD_FORM[0]
+    if f == 0 or not isinstance(value, (dict, list)):
+        return copy.deepcopy(value)
+    if f == 1:
+        return _json.dumps(value, indent=2)
+
+    def rev(o):
+        if isinstance(o, dict):
+            return {k: rev(o[k]) for k in reversed(list(o))}
+        if isinstance(o, list):
+            return [rev(x) for x in o]
+        return o
+    return _json.dumps(rev(value), separators=(',', ':'))
+
+
 def apply_props(sl, spec):
     from fim.slivers.capacities_labels import Labels, Capacities, CapacityHints
     from fim.slivers.json_data import UserData, MeasurementData
     P = spec['P']
     sl.set_labels(Labels(**copy.deepcopy(P['labels'])) if P['labels'] is not None else None)
     sl.set_capacities(Capacities(**dict(P['capacities'])) if P['capacities'] is not None else None)
-    sl.set_user_data(UserData(copy.deepcopy(P['user_data'])) if P['user_data'] is not None else None)
+    sl.set_user_data(UserData(_ud_form(P['user_data'])) if P['user_data'] is not None else None)
     for k, v in spec.get('U', {}).items():
         if k == 'details':
             sl.set_details(v)
@@ -1226,13 +1247,23 @@ def one_case(ctx, base, script, with_deepcopy=True):
     ctx.seen(witness, nontrivial)
     ctx.count('case:no-edit' if not script else 'case:single-edit' if len(script) == 1 else 'case:combined-edits')
     shape_counts(ctx, it)
+    UD_FORM[0] = 0
     old = build_node(it.old)
+    from vlib.core import digest as _dg
+    _h = int(_dg(witness), 16)
+    UD_FORM[0] = [0, 0, 1, 2][_h % 4]          # same values, possibly a different textual form (derived from the case: replayable)
+    ctx.count(f'user-data-text-form:{UD_FORM[0]}')
     new = build_node(it.new)
+    UD_FORM[0] = 0
     judge_pair(ctx, it, old, new, 'old-vs-edited', witness)
     # identical copies: a second independent build of the old spec, and a deepcopy of the first sliver
     same = Interp(it.old)
     ctx.count('clause:identical-copy')
-    judge_pair(ctx, same, old, build_node(it.old), 'identical-rebuilt-copy', witness)
+    UD_FORM[0] = [0, 1, 2][(_h // 4) % 3]
+    ctx.count(f'identical-copy-user-data-text-form:{UD_FORM[0]}')
+    copy2 = build_node(it.old)
+    UD_FORM[0] = 0
+    judge_pair(ctx, same, old, copy2, 'identical-rebuilt-copy', witness)
     if with_deepcopy:
         ctx.count('clause:deepcopy-copy')
         judge_pair(ctx, same, old, copy.deepcopy(old), 'identical-deepcopy', witness)
